@@ -38,6 +38,10 @@ var zzLower = map[string]func(m interface{}, seq int){
 LOWERSHIMS
 }
 
+var zzLowerCalls = map[string]func(m interface{}) int{
+LOWERCALLS
+}
+
 var zzCounter int
 
 func zzValue(t reflect.Type) reflect.Value {
@@ -423,6 +427,30 @@ func TestZZReplay(t *testing.T) {
 			}
 		}()
 	}
+	// C08 for an unexported method next to its exported namesake (write / Write)
+	if low, ok := zzLower[name]; ok && hasResets {
+		func() {
+			h := newH()
+			hw := &zzH{t: t, mock: h.mock, method: "Write", fnType: h.mock.Elem().FieldByName("WriteFunc").Type()}
+			hw.setFunc("Write", func(a []reflect.Value) []reflect.Value { return hw.zeroOuts() })
+			hw.call(hw.args())
+			hw.call(hw.args())
+			low(h.mock.Interface(), 0)
+			low(h.mock.Interface(), 1)
+			h.mock.MethodByName("ResetwriteCalls").Call(nil)
+			if n := hw.calls("Write").Len(); n != 2 {
+				h.report("C08", fmt.Sprintf("ResetwriteCalls changed the records of Write (%d left)", n))
+			}
+			if n := zzLowerCalls[name](h.mock.Interface()); n != 0 {
+				h.report("C08", fmt.Sprintf("ResetwriteCalls left %d records of write", n))
+			}
+			low(h.mock.Interface(), 2)
+			h.mock.MethodByName("ResetWriteCalls").Call(nil)
+			if n := zzLowerCalls[name](h.mock.Interface()); n != 1 {
+				h.report("C08", fmt.Sprintf("ResetWriteCalls changed the records of write (%d left)", n))
+			}
+		}()
+	}
 	// ---- C06: no lock held while user code runs ----
 	func() {
 		h := newH()
@@ -608,6 +636,9 @@ func l3Confirm(ic *IC, ob *exec.Obligation) *Violation {
 	if method == "" && len(m.Methods) > 0 {
 		method = m.Methods[0]
 	}
+	if method != "" && (method[0] < 'A' || method[0] > 'Z') {
+		method = strings.ToUpper(method[:1]) + method[1:] // reflection drives the exported namesake; typed shims cover the unexported method
+	}
 	props := labelProps(ob.Label)
 	prop := env.Prop
 	if len(props) > 0 {
@@ -665,7 +696,14 @@ func l3RunReplay(env *Env, st *L3State, m *L3Mock, method, prop, key string) (st
 		}
 		fmt.Fprintf(&low, "\t%q: func(m interface{}, seq int) {\n\t\tmm := m.(*%s)\n\t\tif seq == 0 {\n\t\t\tmm.writeFunc = func(int) {}\n\t\t}\n\t\tmm.write(seq)\n\t},\n", x.Name, x.Name)
 	}
-	src := strings.Replace(strings.Replace(strings.Replace(l3ReplayTest, "PKG", pkgName, 1), "REGISTRY", reg.String(), 1), "LOWERSHIMS", low.String(), 1)
+	var lowCalls strings.Builder
+	for _, x := range st.Mocks {
+		if x.Cfg.OtherPkg != m.Cfg.OtherPkg || x.Iface != "CasePair" {
+			continue
+		}
+		fmt.Fprintf(&lowCalls, "\t%q: func(m interface{}) int { return len(m.(*%s).writeCalls()) },\n", x.Name, x.Name)
+	}
+	src := strings.Replace(strings.Replace(strings.Replace(strings.Replace(l3ReplayTest, "PKG", pkgName, 1), "REGISTRY", reg.String(), 1), "LOWERSHIMS", low.String(), 1), "LOWERCALLS", lowCalls.String(), 1)
 	testFile := filepath.Join(pkgDir, "zz_replay_test.go")
 	env.mu.Lock()
 	os.WriteFile(testFile, []byte(src), 0o644)
